@@ -1,7 +1,299 @@
-/- Model `ClaimProtocol` (driver token `claim`) — stub, to be filled in. -/
-namespace Stab.ClaimProtocol
+/-
+  Model `ClaimProtocol` (driver token `claim`): the "start a stage exactly once" protocol of
+  `StartStageHandler._start_if_ready` at the granularity of single DB reads and whole transactions.
 
-/-- driver entry: the rest of the request line after the model token -/
-def drive (_rest : String) : String := "unimplemented"
+  Shared state = the row of ONE join stage `j` (status, version, `_join_fired`, has-tasks) plus the rows of its
+  upstream stages (status, version).  Workers are handler invocations, each a small program:
+
+  * `start`  — StartStage(j):  readRow → readTasks → readUps (readiness via `Stab.Ready.evaluate`) →
+               [zombie check read] → claimTxn (CAS version ∧ status = expected phase) → plan (local) →
+               planTxn (CAS version; persists tasks, `_join_fired`, pushes StartTask, marks processed).
+               With `fix = true` (proposed_fixes/F6.diff) a lost claim CAS re-reads the row and retries while the row is
+               still in the expected phase; a lost plan CAS re-reads and retries on the fresh version unless the stage
+               was taken over.  With `fix = false` (the code as found) both losses end the handler.
+  * `complete i` — CompleteStage(uᵢ): read uᵢ (guard: RUNNING) → for DISCRIMINATOR / N_OF_M joins
+               `_update_join_tracking`: re-read j, CAS-write `_completed_branches` into j (a NON-claim write that
+               bumps j's version; bounded retry) → completeTxn (CAS uᵢ.version; uᵢ := SUCCEEDED; pushes StartStage(j)).
+  * `signal` — persistent SignalStage(j) on a stage that is not SUSPENDED: read j → CAS-write `_buffered_signals`
+               (another non-claim write), retried on conflict.
+
+  A schedule is a list of worker indices; each step runs that worker's next atomic action (SQLite is single
+  writer, so a transaction is one step).  Ghost counters record what committed.
+-/
+import Stab.Model.Ready
+
+namespace Stab.ClaimProtocol
+open Stab
+
+/-- phases of the join-stage row this protocol moves between -/
+inductive JStatus where
+  | notStarted | running
+  deriving DecidableEq, Repr, Inhabited
+
+def JStatus.name : JStatus → String
+  | .notStarted => "NOT_STARTED" | .running => "RUNNING"
+
+structure Cfg where
+  join : JoinType := .and
+  threshold : Int := 0
+  predefined : Bool := true      -- the stage has task rows before it is planned (so it can never look like a zombie)
+  fix : Bool := true             -- proposed_fixes/F6.diff applied
+  trackRetries : Nat := 5        -- `_update_join_tracking`: max_retries
+  deriving Repr
+
+def Cfg.fires (c : Cfg) : Bool := c.join == .discriminator || c.join == .nOfM
+
+/-- the row of the join stage + ghost counters of what committed on it -/
+structure JRow where
+  status : JStatus := .notStarted
+  version : Nat := 0
+  fired : Bool := false          -- context["_join_fired"]
+  hasTasks : Bool := false       -- task rows exist
+  planned : Bool := false        -- ghost: a plan transaction committed
+  branches : List Nat := []      -- context["_completed_branches"]
+  buffered : Nat := 0            -- len(context["_buffered_signals"])
+  deriving DecidableEq, Repr
+
+structure URow where
+  status : Status
+  version : Nat := 0
+  pushes : Nat := 0              -- ghost: StartStage(j) batches pushed by CompleteStage(uᵢ)
+  deriving DecidableEq, Repr
+
+inductive Outcome where
+  | planned | lostClaim | lostPlan | ignored | notReady | skip | completed | stale | buffered
+  deriving DecidableEq, Repr
+
+def Outcome.name : Outcome → String
+  | .planned => "planned" | .lostClaim => "lostClaim" | .lostPlan => "lostPlan" | .ignored => "ignored"
+  | .notReady => "notReady" | .skip => "skip" | .completed => "completed" | .stale => "stale" | .buffered => "buffered"
+
+/-- program counter (+ locals) of one worker -/
+inductive W where
+  -- StartStage(j); `exp = none`: first pass, `some e`: re-read after a lost claim that expected phase `e`
+  | sIdle
+  | sRow (exp : Option JStatus)
+  | sTasks (exp : Option JStatus) (st : JStatus) (v : Nat) (fired : Bool)
+  | sUps (st : JStatus) (v : Nat) (fired : Bool) (h : Bool)
+  | sZombie (v : Nat)
+  | sClaim (exp : JStatus) (v : Nat)
+  | sPlan (v : Nat)
+  | sPlanTxn (v : Nat)
+  | sReplanRow
+  | sReplanTasks (st : JStatus) (v : Nat)
+  -- CompleteStage(uᵢ)
+  | cIdle (i : Nat)
+  | cRow (i : Nat) (v : Nat)
+  | cTrack (i : Nat) (v : Nat) (tries : Nat)
+  | cTrackTxn (i : Nat) (v : Nat) (jst : JStatus) (jv : Nat) (tries : Nat)
+  | cTxn (i : Nat) (v : Nat)
+  -- persistent SignalStage(j)
+  | gIdle
+  | gTxn (jv : Nat)
+  | done (o : Outcome)
+  deriving DecidableEq, Repr
+
+def W.isDone : W → Bool
+  | .done _ => true
+  | _ => false
+
+/-- legal initial program counters -/
+def W.isInitial : W → Bool
+  | .sIdle | .cIdle _ | .gIdle => true
+  | _ => false
+
+/-- holds the claim: between a committed claim and its plan commit -/
+def W.postClaim : W → Bool
+  | .sPlan _ | .sPlanTxn _ | .sReplanRow | .sReplanTasks _ _ => true
+  | _ => false
+
+/-- a StartStage handler that read the row and has neither committed its plan nor given up -/
+def W.inFlight : W → Bool
+  | .sTasks .. | .sUps .. | .sZombie _ | .sClaim .. | .sPlan _ | .sPlanTxn _ | .sReplanRow | .sReplanTasks .. => true
+  | .sRow (some _) => true
+  | _ => false
+
+inductive Ev where
+  | claimOk | claimFail | planOk | planFail | bumpOk | bumpFail | complOk | complFail
+  deriving DecidableEq, Repr
+
+structure St where
+  cfg : Cfg
+  j : JRow
+  ups : List URow
+  ws : List W
+  -- ghost
+  claimCommits : Nat := 0        -- committed NOT_STARTED → RUNNING changes
+  reclaimCommits : Nat := 0      -- committed RUNNING → RUNNING zombie re-claims
+  planCommits : Nat := 0
+  startTasks : Nat := 0          -- StartTask pushes
+  claimer : Option Nat := none   -- who committed NOT_STARTED → RUNNING
+  attempted : Bool := false      -- some handler saw READY and went for the claim
+  disturbed : Bool := false      -- a non-claim write committed on j while a StartStage handler was in flight
+  log : List (Nat × Ev) := []
+  deriving Repr
+
+def upStatuses (ups : List URow) : List Ready.Up :=
+  (List.range ups.length).zipWith (fun i (u : URow) => { ref := i, status := u.status }) ups
+
+/-- readiness as `StartStageHandler.handle` computes it from the row snapshot and the upstream statuses -/
+def readiness (c : Cfg) (fired : Bool) (ups : List URow) : Ready.Phase :=
+  (Ready.evaluate { join := c.join, threshold := c.threshold, joinFired := fired, activated := none,
+                    bypass := false, ups := upStatuses ups }).phase
+
+/-- `_start_if_ready` up to the claim: what to do with a snapshot (`exp` = phase a lost claim expected) -/
+def decideStart (exp : Option JStatus) (st : JStatus) (v : Nat) (h : Bool) : W :=
+  match exp with
+  | some e => if st ≠ e then .done .lostClaim else
+      match st with
+      | .notStarted => .sClaim .notStarted v
+      | .running => if h then .done .ignored else .sZombie v
+  | none =>
+      match st with
+      | .notStarted => .sClaim .notStarted v
+      | .running => if h then .done .ignored else .sZombie v
+
+def bumpJ (j : JRow) : JRow := { j with version := j.version + 1 }
+
+/-- one atomic action of worker `i` whose program counter is `w` -/
+def stepW (s : St) (i : Nat) (w : W) : St × W :=
+  let c := s.cfg
+  let anyInFlight := s.ws.any W.inFlight
+  match w with
+  | .sIdle => (s, .sRow none)
+  | .sRow exp => (s, .sTasks exp s.j.status s.j.version s.j.fired)
+  | .sTasks exp st v fired =>
+    match exp with
+    | none => (s, .sUps st v fired s.j.hasTasks)
+    | some e =>
+      let w' := decideStart (some e) st v s.j.hasTasks
+      (s, w')
+  | .sUps st v fired h =>
+    match readiness c fired s.ups with
+    | .skip => (s, .done .skip)
+    | .notReady => (s, .done .notReady)
+    | .ready =>
+      let w' := decideStart none st v h
+      ({ s with attempted := s.attempted || (match w' with | .done _ => false | _ => true) }, w')
+  | .sZombie v => (s, .sClaim .running v)
+  | .sClaim exp v =>
+    if s.j.version = v ∧ s.j.status = exp then
+      let j' := { s.j with status := .running, version := s.j.version + 1 }
+      match exp with
+      | .notStarted =>
+        ({ s with j := j', claimCommits := s.claimCommits + 1, claimer := some i, log := s.log ++ [(i, .claimOk)] }, .sPlan (v + 1))
+      | .running =>
+        ({ s with j := j', reclaimCommits := s.reclaimCommits + 1, log := s.log ++ [(i, .claimOk)] }, .sPlan (v + 1))
+    else
+      ({ s with log := s.log ++ [(i, .claimFail)] }, if c.fix then .sRow (some exp) else .done .lostClaim)
+  | .sPlan v => (s, .sPlanTxn v)
+  | .sPlanTxn v =>
+    if s.j.version = v then
+      let j' := { s.j with version := s.j.version + 1, hasTasks := true, planned := true, fired := s.j.fired || c.fires }
+      ({ s with j := j', planCommits := s.planCommits + 1, startTasks := s.startTasks + 1, log := s.log ++ [(i, .planOk)] }, .done .planned)
+    else
+      ({ s with log := s.log ++ [(i, .planFail)] }, if c.fix then .sReplanRow else .done .lostPlan)
+  | .sReplanRow => (s, .sReplanTasks s.j.status s.j.version)
+  | .sReplanTasks st v =>
+    -- taken_over = fresh.status != RUNNING or (not had_tasks_at_claim and fresh.tasks)
+    if st ≠ .running || (!c.predefined && s.j.hasTasks) then (s, .done .lostPlan) else (s, .sPlanTxn v)
+  | .cIdle u =>
+    match s.ups[u]? with
+    | none => (s, .done .stale)
+    | some r => if r.status = .running then (s, .cRow u r.version) else (s, .done .stale)
+  | .cRow u v => if c.fires then (s, .cTrack u v c.trackRetries) else (s, .cTxn u v)
+  | .cTrack u v tries =>
+    if s.j.branches.contains u then (s, .cTxn u v) else (s, .cTrackTxn u v s.j.status s.j.version tries)
+  | .cTrackTxn u v jst jv tries =>
+    if s.j.version = jv ∧ s.j.status = jst then
+      ({ s with j := { bumpJ s.j with branches := s.j.branches ++ [u] }, disturbed := s.disturbed || anyInFlight,
+                log := s.log ++ [(i, .bumpOk)] }, .cTxn u v)
+    else
+      ({ s with log := s.log ++ [(i, .bumpFail)] }, match tries with | 0 => .cIdle u | t + 1 => .cTrack u v t)
+  | .cTxn u v =>
+    match s.ups[u]? with
+    | none => (s, .done .stale)
+    | some r =>
+      if r.version = v then
+        ({ s with ups := s.ups.set u { r with status := .succeeded, version := r.version + 1, pushes := r.pushes + 1 },
+                  log := s.log ++ [(i, .complOk)] }, .done .completed)
+      else ({ s with log := s.log ++ [(i, .complFail)] }, .cIdle u)
+  | .gIdle => (s, .gTxn s.j.version)
+  | .gTxn jv =>
+    if s.j.version = jv then
+      ({ s with j := { bumpJ s.j with buffered := s.j.buffered + 1 }, disturbed := s.disturbed || anyInFlight,
+                log := s.log ++ [(i, .bumpOk)] }, .done .buffered)
+    else ({ s with log := s.log ++ [(i, .bumpFail)] }, .gIdle)
+  | .done o => (s, .done o)
+
+def step (s : St) (i : Nat) : St :=
+  match s.ws[i]? with
+  | none => s
+  | some w =>
+    let r := stepW s i w
+    { r.1 with ws := r.1.ws.set i r.2 }
+
+def run (s : St) (sched : List Nat) : St := sched.foldl step s
+
+def init (c : Cfg) (ups : List URow) (ws : List W) : St :=
+  { cfg := c, j := { hasTasks := c.predefined }, ups := ups, ws := ws }
+
+def allDone (s : St) : Bool := s.ws.all W.isDone
+
+/-! ### driver
+`claim join=<J> th=<n> pre=<0/1> fix=<0/1>;<ups: STATUS:version,...|->;<workers: S|C<i>|G,...>;<schedule: i,i,...|->`
+answer: `j=<status>,v<version>,f<fired>,t<hasTasks>,b<branches>,g<buffered> claims=<n> reclaims=<n> plans=<n> st=<n> ups=<status:v:pushes,...> | w0=<pc> ... | <per worker: c<commit events>r<failed CAS>>` -/
+
+def parseCfg (s : String) : Option Cfg := do
+  match s.splitOn " " with
+  | [j, th, pre, fix] =>
+    let kv (x k : String) : Option String := if x.startsWith (k ++ "=") then some (x.drop (k.length + 1)).toString else none
+    let join ← JoinType.ofName? (← kv j "join")
+    let threshold ← Parse.int? (← kv th "th")
+    let predefined ← Parse.bool? (← kv pre "pre")
+    let fix ← Parse.bool? (← kv fix "fix")
+    pure { join, threshold, predefined, fix }
+  | _ => none
+
+def parseUp (s : String) : Option URow :=
+  match s.splitOn ":" with
+  | [st, v] => do pure { status := (← Status.ofName? st), version := (← Parse.nat? v) }
+  | _ => none
+
+def parseW (s : String) : Option W :=
+  if s == "S" then some .sIdle
+  else if s == "G" then some .gIdle
+  else if s.startsWith "C" then (Parse.nat? (s.drop 1).toString).map .cIdle
+  else none
+
+def pcName : W → String
+  | .sIdle => "sIdle" | .sRow _ => "sRow" | .sTasks .. => "sTasks" | .sUps .. => "sUps" | .sZombie _ => "sZombie"
+  | .sClaim .. => "sClaim" | .sPlan _ => "sPlan" | .sPlanTxn _ => "sPlanTxn" | .sReplanRow => "sReplanRow"
+  | .sReplanTasks .. => "sReplanTasks" | .cIdle _ => "cIdle" | .cRow .. => "cRow" | .cTrack .. => "cTrack"
+  | .cTrackTxn .. => "cTrackTxn" | .cTxn .. => "cTxn" | .gIdle => "gIdle" | .gTxn _ => "gTxn"
+  | .done o => o.name
+
+def Ev.ok : Ev → Bool
+  | .claimOk | .planOk | .bumpOk | .complOk => true
+  | _ => false
+
+def showSt (s : St) : String :=
+  let b := fun (x : Bool) => if x then "1" else "0"
+  let j := s!"j={s.j.status.name},v{s.j.version},f{b s.j.fired},t{b s.j.hasTasks},b{s.j.branches.length},g{s.j.buffered}"
+  let ups := Parse.joinWith "," (s.ups.map fun u => s!"{u.status.name}:{u.version}:{u.pushes}")
+  let ws := Parse.joinWith " " ((List.range s.ws.length).zipWith (fun i w => s!"w{i}={pcName w}") s.ws)
+  let per := Parse.joinWith " " ((List.range s.ws.length).map fun i =>
+    let evs := (s.log.filter (fun e => e.1 == i)).map (·.2)
+    s!"c{(evs.filter Ev.ok).length}r{(evs.filter (fun e => !e.ok)).length}")
+  s!"{j} claims={s.claimCommits} reclaims={s.reclaimCommits} plans={s.planCommits} st={s.startTasks} ups={if ups.isEmpty then "-" else ups} | {ws} | {per}"
+
+def drive (rest : String) : String :=
+  match rest.splitOn ";" with
+  | [c, ups, ws, sched] =>
+    match parseCfg c, (if ups == "-" then some [] else Parse.all? parseUp (ups.splitOn ",")),
+          Parse.all? parseW (Parse.splitNE ws ","), Parse.natList? sched with
+    | some c, some ups, some ws, some sched => showSt (run (init c ups ws) sched)
+    | _, _, _, _ => "bad-request"
+  | _ => "bad-request"
 
 end Stab.ClaimProtocol
